@@ -84,7 +84,7 @@ def split(func, ordinal=0):
     state = params + [n for n in _names_stored(pre) if n not in params]
     body_names = [n for n in _names_stored(loop.body) if n not in state]
     tgt = loop.target.id
-    allnames = state + [n for n in body_names if n != tgt] + [tgt]
+    allnames = [n for n in state if n != tgt] + [n for n in body_names if n != tgt] + [tgt]
     f_pre = _mk(func.__name__ + '__prefix', params,
                 pre + [ast.Return(value=ast.Tuple(elts=[_locals(), copy.deepcopy(loop.iter)], ctx=ast.Load()))])
     body = [_BreakRewriter().visit(copy.deepcopy(s)) for s in loop.body]
